@@ -34,13 +34,15 @@ package reconciledloader
 //@   requires allGood()
 //@   modifies alloc, remotedLinkedItem.next
 //@   ensures result != nil && clean(result) && result.next == nil && allGood()
+//@   ensures forall r *ReconciledLoader :: r != nil ==> result != r.remoteQueue.lastConsumed && result != r.remoteQueue.head && result != r.remoteQueue.tail
 
 //@ func freeList
 //@   requires allGood()
 //@   requires forall j int :: 0 <= j && j < len(remoteItems) ==> remoteItems[j] != nil && isalloc(remoteItems[j])
 //@   modifies remotedLinkedItem.remoteItem
-//@   loop 1 invariant allGood()
+//@   loop 1 invariant allGood() && (forall n *remotedLinkedItem :: len(n.block) == 0 || n.remoteItem == old(n.remoteItem))
 //@   ensures allGood()
+//@   ensures forall n *remotedLinkedItem :: len(n.block) == 0 || n.remoteItem == old(n.remoteItem)
 
 //@ func remoteQueue.empty
 //@   modifies nothing
@@ -173,7 +175,7 @@ package reconciledloader
 //@   lenient
 //@   requires wf(rl)
 //@   modifies alloc
-//@   callsite LinkSystem$StorageReadOpener: assert arg1 == link
+//@   callsite $StorageReadOpener: assert arg1 == link
 //@   ensures result.Local
 
 //@ -- C01: a load answered from remote data returns bytes that hash to the requested link; a replay error is returned
@@ -184,13 +186,17 @@ package reconciledloader
 //@   requires linv(rl) && isCidLink(link)
 //@   modifies alloc, vfail, remoteQueue.head, remoteQueue.tail, remoteQueue.dataSize, remoteQueue.lastConsumed, remotedLinkedItem.next, remotedLinkedItem.remoteItem, ReconciledLoader.open, ReconciledLoader.verifier, traversalrecord.Verifier.stack, pathTracker.lastUnfollowedRemotePath
 //@   ensures linv(rl)
-//@   ensures result.Err == nil && !result.Local ==> isSumOf(linkCid(link), result.Data)
-//@   ensures vfail != old(vfail) ==> result.Err != nil
-//@   ensures !usedRemote ==> rl.remoteQueue.lastConsumed == old(rl.remoteQueue.lastConsumed) || result.Err != nil
+//@   ensures result1.Err == nil && !result1.Local ==> isSumOf(linkCid(link), result1.Data)
+//@   ensures vfail != old(vfail) ==> result1.Err != nil
+//@   ensures !result0 && result1.Err == nil ==> result1.Local
+
+//@ func loadAttempt.empty
+//@   modifies nothing
+//@   ensures result == (lr.link == nil)
 
 //@ func ReconciledLoader.BlockReadOpener
 //@   requires linv(rl) && isCidLink(link)
-//@   modifies alloc, vfail, remoteQueue.head, remoteQueue.tail, remoteQueue.dataSize, remoteQueue.lastConsumed, remotedLinkedItem.next, remotedLinkedItem.remoteItem, ReconciledLoader.open, ReconciledLoader.verifier, ReconciledLoader.mostRecentLoadAttempt, traversalrecord.Verifier.stack, pathTracker.lastUnfollowedRemotePath, traversalrecord.TraversalRecord.link, traversalrecord.TraversalRecord.successful, traversalrecord.TraversalRecord.children, traversalrecord.TraversalRecord.childSegments, traversalrecord.traversalLink.segment, traversalrecord.traversalLink.TraversalRecord, allmaps("map[datamodel.PathSegment]int")
+//@   modifies alloc, vfail, recNodes, remoteQueue.head, remoteQueue.tail, remoteQueue.dataSize, remoteQueue.lastConsumed, remotedLinkedItem.next, remotedLinkedItem.remoteItem, ReconciledLoader.open, ReconciledLoader.verifier, ReconciledLoader.mostRecentLoadAttempt, traversalrecord.Verifier.stack, pathTracker.lastUnfollowedRemotePath, traversalrecord.TraversalRecord.link, traversalrecord.TraversalRecord.successful, traversalrecord.TraversalRecord.children, traversalrecord.TraversalRecord.childSegments, traversalrecord.traversalLink.segment, traversalrecord.traversalLink.TraversalRecord, allmaps("map[datamodel.PathSegment]int")
 //@   ensures linv(rl)
 //@   ensures result.Err == nil && !result.Local ==> isSumOf(linkCid(link), result.Data)
 //@   ensures vfail != old(vfail) ==> result.Err != nil
